@@ -191,8 +191,19 @@ Judge(C, s, ev, r, prevchk) ==
         \o ForNodes(C, LAMBDA n : TRUE,
                  LAMBDA n : <<"C02.value", n, ChkEq(ev.val[n], Val(C, post, n), D)>>)
         \* C02: P&L attribution since the previous close, root level
+        \* (a value outside the representable range is not judged)
         \o <<<<"C02.attribution", 1,
-              ChkEq(RSub(ev.val[Root], post.pval[Root]), PnlRHS(C, post), D)>>>>
+              IF Bad(Val(C, post, Root)) \/ Bad(PnlRHS(C, post)) THEN "skip"
+              ELSE ChkEq(RSub(ev.val[Root], post.pval[Root]), PnlRHS(C, post), D)>>>>
+        \* ... with the costs as the tree *reports* them: today's recorded fees and
+        \* bid/offer paid are the amounts the attribution subtracts
+        \o <<<<"C02.costs.fees", 1,
+              ChkEq(RSumSeq([i \in 1..Len(StratSeq(C)) |-> ev.rows.fees[StratSeq(C)[i]]]),
+                    SumAll(post.fee, StratSeq(C)), D)>>,
+             <<"C02.costs.bidoffer", 1,
+              IF ~C.bidoffer THEN "ok"
+              ELSE ChkEq(RSumSeq([i \in 1..Len(SecSeq(C)) |-> ev.rows.bop[SecSeq(C)[i]]]),
+                         SumAll(post.bop, SecSeq(C)), D)>>>>
         \* C03: index ratio (market value) / difference (fixed income)
         \o (IF ~post.bankrupt /\ ~s.bankrupt THEN
               <<<<IF C.fi[Root] THEN "C17.index" ELSE "C03.ratio", 1,
